@@ -202,16 +202,19 @@ fn edits_for(base: &Value, rng: &mut Rng, thorough: bool) -> Vec<FileEdit> {
         }
         // every parameter gets a value of its own: each verifier field must receive ITS file value
         {
+            // (the placement parameters only: column / offset / suboffset - the others steer the
+            // parser's own size computations and would make the file inconsistent)
+            let placement = |k: &String| k.ends_with("_column") || k.ends_with("_offset") || k.ends_with("_suboffset");
             let mut v = base.clone();
-            for (j, k) in keys.iter().enumerate() {
+            for (j, k) in keys.iter().enumerate().filter(|(_, k)| placement(k)) {
                 v["public_input"]["dynamic_params"][k] = json!(1000 + j as u64);
             }
-            push("dynamic_params all distinct", "every dynamic parameter set to 1000 + its position".into(), Mark::WellFormed, v);
+            push("dynamic_params all distinct", "every placement parameter (column / offset / suboffset) set to 1000 + its position".into(), Mark::WellFormed, v);
             let mut v = base.clone();
-            for (j, k) in keys.iter().enumerate() {
+            for (j, k) in keys.iter().enumerate().filter(|(_, k)| placement(k)) {
                 v["public_input"]["dynamic_params"][k] = json!(5000 - 3 * j as u64);
             }
-            push("dynamic_params all distinct", "every dynamic parameter set to 5000 - 3 * its position".into(), Mark::WellFormed, v);
+            push("dynamic_params all distinct", "every placement parameter set to 5000 - 3 * its position".into(), Mark::WellFormed, v);
         }
         let mut v = base.clone();
         v["public_input"]["dynamic_params"]["extra_param"] = json!(1);
